@@ -28,21 +28,21 @@ func init() {
 // generator
 // ---------------------------------------------------------------------------------------------
 
-// gt is a generated term (kept apart from engine terms so that variable numbers are explicit).
-type gt struct {
+// gt_c09 is a generated term (kept apart from engine terms so that variable numbers are explicit).
+type gt_c09 struct {
 	k    byte // 'V', 'A', 'I', 'C'
 	s    string
 	n    int64
-	args []*gt
+	args []*gt_c09
 }
 
-func gv(n int) *gt                { return &gt{k: 'V', n: int64(n)} }
-func ga(s string) *gt             { return &gt{k: 'A', s: s} }
-func gi(n int64) *gt              { return &gt{k: 'I', n: n} }
-func gc(f string, as ...*gt) *gt  { return &gt{k: 'C', s: f, args: as} }
-func grule(h, b *gt) *gt          { return gc(":-", h, b) }
+func gv(n int) *gt_c09                { return &gt_c09{k: 'V', n: int64(n)} }
+func ga(s string) *gt_c09             { return &gt_c09{k: 'A', s: s} }
+func gi(n int64) *gt_c09              { return &gt_c09{k: 'I', n: n} }
+func gc(f string, as ...*gt_c09) *gt_c09  { return &gt_c09{k: 'C', s: f, args: as} }
+func grule(h, b *gt_c09) *gt_c09          { return gc(":-", h, b) }
 
-func (t *gt) wire() string {
+func (t *gt_c09) wire() string {
 	switch t.k {
 	case 'V':
 		return "V" + strconv.FormatInt(t.n, 10)
@@ -59,7 +59,7 @@ func (t *gt) wire() string {
 	}
 }
 
-func (t *gt) vars(acc []int) []int {
+func (t *gt_c09) vars(acc []int) []int {
 	switch t.k {
 	case 'V':
 		for _, v := range acc {
@@ -84,7 +84,7 @@ type c09gen struct {
 	size    map[string]int // upper bound of the number of clauses per predicate (bounds the work of nested goals)
 }
 
-func gtPI(t *gt) string {
+func gtPI(t *gt_c09) string {
 	if t.k == 'C' && t.s == ":-" && len(t.args) == 2 {
 		t = t.args[0]
 	}
@@ -97,7 +97,7 @@ func gtPI(t *gt) string {
 	return "?"
 }
 
-func (g *c09gen) grow(c *gt, n int) {
+func (g *c09gen) grow(c *gt_c09, n int) {
 	k := 1
 	if c.k == 'C' && c.s == ":-" && len(c.args) == 2 && c.args[1].k == 'C' && c.args[1].s == ";" {
 		k = 2
@@ -105,9 +105,9 @@ func (g *c09gen) grow(c *gt, n int) {
 	g.size[gtPI(c)] += k * n
 }
 
-var c09Consts = []*gt{ga("a"), ga("b"), gi(1), gi(2)}
+var c09Consts = []*gt_c09{ga("a"), ga("b"), gi(1), gi(2)}
 
-func (g *c09gen) constant() *gt { return pick(g.r, c09Consts) }
+func (g *c09gen) constant() *gt_c09 { return pick(g.r, c09Consts) }
 
 // pred picks a predicate of the universe, mostly the focus predicate of this case.
 func (g *c09gen) pred() (string, int) {
@@ -129,7 +129,7 @@ func (g *c09gen) pred() (string, int) {
 	}
 }
 
-func mk(name string, args []*gt) *gt {
+func mk(name string, args []*gt_c09) *gt_c09 {
 	if len(args) == 0 {
 		return ga(name)
 	}
@@ -137,9 +137,9 @@ func mk(name string, args []*gt) *gt {
 }
 
 // head of a clause to be asserted at top level: constants and clause variables (fresh, unique).
-func (g *c09gen) clauseHead() *gt {
+func (g *c09gen) clauseHead() *gt_c09 {
 	name, ar := g.pred()
-	args := make([]*gt, ar)
+	args := make([]*gt_c09, ar)
 	for i := range args {
 		if g.r.Intn(10) < 6 {
 			args[i] = g.constant()
@@ -153,7 +153,7 @@ func (g *c09gen) clauseHead() *gt {
 	return mk(name, args)
 }
 
-func (g *c09gen) wrapBody(h *gt) *gt {
+func (g *c09gen) wrapBody(h *gt_c09) *gt_c09 {
 	switch k := g.r.Intn(10); {
 	case k < 6:
 		return h
@@ -165,7 +165,7 @@ func (g *c09gen) wrapBody(h *gt) *gt {
 }
 
 // a clause that must be rejected (or hits a procedure that cannot be modified)
-func (g *c09gen) badClause() *gt {
+func (g *c09gen) badClause() *gt_c09 {
 	switch g.r.Intn(10) {
 	case 0:
 		return gv(g.fresh())
@@ -194,10 +194,10 @@ func (g *c09gen) fresh() int { g.nextCV++; return g.nextCV - 1 }
 
 // variant returns the same clause with fresh clause variables (a duplicate up to renaming: on the engine
 // every asserted clause has variables of its own).
-func (g *c09gen) variant(t *gt) *gt {
+func (g *c09gen) variant(t *gt_c09) *gt_c09 {
 	m := map[int64]int{}
-	var walk func(t *gt) *gt
-	walk = func(t *gt) *gt {
+	var walk func(t *gt_c09) *gt_c09
+	walk = func(t *gt_c09) *gt_c09 {
 		switch t.k {
 		case 'V':
 			if _, ok := m[t.n]; !ok {
@@ -205,21 +205,21 @@ func (g *c09gen) variant(t *gt) *gt {
 			}
 			return gv(m[t.n])
 		case 'C':
-			args := make([]*gt, len(t.args))
+			args := make([]*gt_c09, len(t.args))
 			for i, a := range t.args {
 				args[i] = walk(a)
 			}
-			return &gt{k: 'C', s: t.s, args: args}
+			return &gt_c09{k: 'C', s: t.s, args: args}
 		}
 		return t
 	}
 	return walk(t)
 }
 
-func (g *c09gen) pvar() *gt { g.nextPV++; return gv(g.nextPV - 1) }
+func (g *c09gen) pvar() *gt_c09 { g.nextPV++; return gv(g.nextPV - 1) }
 
 // goal / retract pattern
-func (g *c09gen) pattern(forRetract bool) *gt {
+func (g *c09gen) pattern(forRetract bool) *gt_c09 {
 	if g.r.Intn(25) == 0 {
 		switch g.r.Intn(6) {
 		case 0:
@@ -249,7 +249,7 @@ func (g *c09gen) pattern(forRetract bool) *gt {
 		}
 	}
 	name, ar := g.pred()
-	args := make([]*gt, ar)
+	args := make([]*gt_c09, ar)
 	for i := range args {
 		if g.r.Intn(20) < 9 {
 			args[i] = g.constant()
@@ -271,7 +271,7 @@ func (g *c09gen) pattern(forRetract bool) *gt {
 	return h
 }
 
-func (g *c09gen) piTerm() *gt {
+func (g *c09gen) piTerm() *gt_c09 {
 	if g.r.Intn(4) == 0 {
 		switch g.r.Intn(9) {
 		case 0:
@@ -314,7 +314,7 @@ func (g *c09gen) update() string {
 		return "ab " + g.piTerm().wire()
 	default:
 		if g.r.Intn(12) == 0 {
-			return "ra " + pick(g.r, []*gt{g.pvar(), gi(3), gc("s", g.pvar())}).wire()
+			return "ra " + pick(g.r, []*gt_c09{g.pvar(), gi(3), gc("s", g.pvar())}).wire()
 		}
 		return "ra " + g.pattern(false).wire()
 	}
@@ -346,7 +346,7 @@ func (g *c09gen) nestedTry() (string, bool) {
 	reopened := map[string]bool{}
 	growth := map[string]int{}
 	okSoFar := true
-	noteIter := func(t *gt) {
+	noteIter := func(t *gt_c09) {
 		pi := gtPI(t)
 		if nIter > 0 {
 			reopened[pi] = true
@@ -361,7 +361,7 @@ func (g *c09gen) nestedTry() (string, bool) {
 			okSoFar = false
 		}
 	}
-	noteAssert := func(c *gt) {
+	noteAssert := func(c *gt_c09) {
 		pi := gtPI(c)
 		k := 1
 		if c.k == 'C' && c.s == ":-" && len(c.args) == 2 && c.args[1].k == 'C' && c.args[1].s == ";" {
@@ -371,9 +371,9 @@ func (g *c09gen) nestedTry() (string, bool) {
 	}
 	n := 2 + g.r.Intn(4)
 	var goals []string
-	var pvars []*gt
-	bound := []*gt{} // pattern variables that may be bound by an earlier goal
-	addVars := func(t *gt) {
+	var pvars []*gt_c09
+	bound := []*gt_c09{} // pattern variables that may be bound by an earlier goal
+	addVars := func(t *gt_c09) {
 		for _, v := range t.vars(nil) {
 			seen := false
 			for _, b := range bound {
@@ -387,15 +387,15 @@ func (g *c09gen) nestedTry() (string, bool) {
 			}
 		}
 	}
-	iterPattern := func(forRetract bool) *gt {
+	iterPattern := func(forRetract bool) *gt_c09 {
 		t := g.pattern(forRetract)
 		// reuse an earlier variable now and then:  p(X), retract(p(X))
 		if len(bound) > 0 && g.r.Intn(3) == 0 && t.k == 'C' {
-			t = &gt{k: 'C', s: t.s, args: append([]*gt(nil), t.args...)}
+			t = &gt_c09{k: 'C', s: t.s, args: append([]*gt_c09(nil), t.args...)}
 			if t.s == ":-" {
 				h := t.args[0]
 				if h.k == 'C' {
-					h = &gt{k: 'C', s: h.s, args: append([]*gt(nil), h.args...)}
+					h = &gt_c09{k: 'C', s: h.s, args: append([]*gt_c09(nil), h.args...)}
 					h.args[g.r.Intn(len(h.args))] = pick(g.r, bound)
 					t.args[0] = h
 				}
@@ -424,7 +424,7 @@ func (g *c09gen) nestedTry() (string, bool) {
 		case k < 85:
 			// assert: ground clause, or a fact over guarded pattern variables
 			name, ar := g.pred()
-			args := make([]*gt, ar)
+			args := make([]*gt_c09, ar)
 			useVar := len(bound) > 0 && g.r.Intn(2) == 0
 			var guards []string
 			unguarded := false
